@@ -116,6 +116,49 @@ Qed.
 End Reduce.
 End Generic.
 
+(* counts only (no assumption on the values): if split_at(k) yields pieces of sizes k and size-k and a piece of size m yields m
+   items, every admissible tree yields size-many items and never panics *)
+Section Sizes.
+Context {P A : Type} (D : producer P A).
+Variable lo : nat.
+Variable size : P -> nat.
+Hypothesis size_items : forall p, length (p_items D p) = size p.
+Hypothesis size_split : forall p k, lo <= k <= size p ->
+  exists pl pr, p_split D p k = Ok (pl, pr) /\ size pl = k /\ size pr = size p - k.
+
+Theorem run_length : forall t p, admissible lo t (size p) -> exists l, run D t p = Ok l /\ length l = size p.
+Proof.
+  induction t as [|k l IHl r IHr]; intros p Hadm; cbn [run].
+  - eexists; split; [reflexivity | apply size_items].
+  - cbn [admissible] in Hadm. destruct Hadm as (Hk & Hl & Hr).
+    destruct (size_split p k Hk) as (pl & pr & Es & Sl & Sr). rewrite Es; cbn [obind fst snd].
+    destruct (IHl pl) as (a & Ea & La); [rewrite Sl; exact Hl|].
+    destruct (IHr pr) as (b & Eb & Lb); [rewrite Sr; exact Hr|].
+    rewrite Ea, Eb; cbn [obind]. eexists; split; [reflexivity|]. rewrite app_length. lia.
+Qed.
+End Sizes.
+
+(* mapping the items (rayon's Map adaptor) keeps the window invariant, for the mapped sequence *)
+Section Mapped.
+Context {P A B : Type} (D : producer P A) (f : A -> B).
+Variable lo : nat.
+Variable v : nat -> A.
+Variable Rep : P -> nat -> nat -> Prop.
+Hypothesis Rep_items : forall p a b, Rep p a b -> p_items D p = map v (seq a (b - a)).
+Hypothesis Rep_split : forall p a b k, Rep p a b -> lo <= k <= b - a ->
+  exists pl pr, p_split D p k = Ok (pl, pr) /\ Rep pl a (a + k) /\ Rep pr (a + k) b.
+
+Lemma pmap_items p a b : Rep p a b -> p_items (pmap f D) p = map (fun i => f (v i)) (seq a (b - a)).
+Proof. intros H. unfold pmap; cbn [p_items]. rewrite (Rep_items _ _ _ H), map_map. reflexivity. Qed.
+
+Theorem collect_mapped t p a b : Rep p a b -> admissible lo t (b - a) ->
+  run_collect (pmap f D) t (b - a) p = Ok (map f (map v (seq a (b - a)))).
+Proof.
+  intros H Ha. rewrite map_map.
+  apply (run_collect_window (pmap f D) lo (fun i => f (v i)) Rep pmap_items Rep_split t p a b H Ha).
+Qed.
+End Mapped.
+
 (* the trees rayon's bridge can build: a node splits at len/2 and only when len/2 >= 1 (LengthSplitter::try_split with
    min >= 1); which nodes become leaves depends on thread count and stealing, i.e. is arbitrary *)
 Fixpoint bridge_shaped (t : tree) (n : nat) : Prop :=
